@@ -46,6 +46,27 @@ CHECKS = {
  "C19": ("mc", "stateless model checking of the proxy's shipped relay and status code over in-memory net.Conn values under a controlled scheduler (chunking + scheduling choices, deviation bound 2; unbounded pass in the thorough tier)",
          "handleMessages, handleClientMessages, handleServerMessages, keepCircularQueueUpdated and ReportFeed.Status run instrumented (channels, goroutines, sync, time) with the package globals set as start() sets them; a status thread calls Status() at scheduler-chosen moments. 7 client streams (HTML-looking payloads and junk, malformed CRC-valid MSM frames) x 3 server streams: both directions must be relayed byte-for-byte, nothing may panic or spin, every report may list only a prefix of the framing of the client stream and must contain no '<'/'>' beyond the fixed template.",
          "TCP replaced by in-memory connections (kernel segmentation/timing not covered); status HTTP server not started; daily log writer is the real type with logging disabled; escaping judged on '<' and '>'.", "5/C19"),
+ "C04": ("enum", "bounded-exhaustive enumeration of a complete product of MSM4/MSM7 messages (types x mask shapes x cell masks x field values x flags x paddings) built by an independent encoder, decoded and compared field by field",
+         "Every message of the product 14 types x 8-11 mask shapes x all/6 cell masks x 6 value assignments x 3 header-scalar settings x multiple-message flag x 11-19 padding lengths is encoded by the reference encoder and decoded by the library; every exported header, satellite and signal field, including the satellite/signal id each cell is attached to, must equal the encoder input and no message may be rejected.",
+         "The reference encoder (/verif/ref/msm.go) defines 'well-formed'. Field values are the 6 structured assignments, not all 2^n values per field (C08 and C14 sweep values).", "5/C04"),
+ "C05": ("enum", "bounded-exhaustive enumeration of 1005/1006 field values (boundary products, every reserved-bit value, dense integer sweeps for the display clause), truncations and wrong-type payloads against an independent encoder and an integer decimal formatter",
+         "Boundary-set products over the three 38-bit coordinates, all reserved-bit values, station ids, ITRF years and heights, 0-3 trailing bytes, every truncation length and cross-typed payloads, through the decoders directly and through handler.GetMessage+String at both log levels; plus dense sweeps of every integer in windows around 0, +-2^37 and each +-2^k. Fields must be exact, the display must show value x 0.0001 to four decimals exactly (computed in integers), and short or mistyped payloads must be rejected.",
+         "Coordinates outside the boundary set and sweep windows are not enumerated.", "5/C05"),
+ "C06": ("enum", "explicit enumeration of message histories from the real handler state (cloned at every branch) against a reference GNSS time model",
+         "From 40 start times (Wednesday noon and each constellation's roll-over -1 ms/0/+1 ms, in 4 time zones) every history of <=3/4 messages over four constellations and a 9-step time-advance menu plus illegal timestamps, and single-constellation histories of depth <=5/7, is run through handler.GetMessage on CRC-valid frames; SentAt and StartOfWeek of every message must equal the reference model's true instant and week start; illegal timestamps must give an error and leave later messages exact.",
+         "Reference model /verif/ref/gnsstime.go (offsets 18 s, 4 s, 3 h as the statement gives). Depth-bounded; the advance menu is finite.", "5/C06"),
+ "C07": ("enum", "bounded-exhaustive enumeration of hostile inputs (complete small alphabets, every payload length x 14 payload patterns x 16 decodable types, every truncation of well-formed messages, every type) through every public entry point under recover and a stall watchdog",
+         "Every CRC-valid frame of each decodable type with every payload length 1..1023 (quick: a subset) and 14 deterministic payload patterns including masks announcing more cells than fit and illegal timestamps, every truncation of well-formed MSM/1005/1006 messages, all 4096 types with short payloads and all short strings over a frame alphabet go through the stream loop, GetMessage, Analyse, String (both levels), Copy and the four decoders; any panic, unbounded framing loop or stall is a violation.",
+         "Payload bits are the 14 patterns, not all 2^n values. A hang is reported only if it reproduces.", "5/C07"),
+ "C08": ("enum", "exhaustive / strided sweeps of every fine field at anchor points plus boundary products, against exact rational arithmetic (math/big), 8 ulp tolerance",
+         "Signal cells are built through the packages' constructors and through decoded messages; whole-ms x fractional products, every value (thorough) of each fine range/phase/rate field at 6 anchors, the full boundary product including every 'invalid' marker, all 4 x 34 constellation/signal-id wavelengths and MSM4/MSM7 pairs encoding the same quantity are compared with the standard's formulas evaluated in exact rationals.",
+         "Negative true values and undefined wavelengths are only checked for absence of panics (excluded by the statement). Band assignment of signal ids is not pinned.", "5/C08"),
+ "C15": ("mc", "explicit enumeration of frame histories through one handler (state cloned per branch) + stateless model checking of concurrent decoders with yield points in the whole decoding library (preemption-bounded)",
+         "Histories: every sequence of <=3/4 inputs from a 14-entry alphabet through one handler at both log levels; decoded structure and display (minus the MSM time lines) must equal the fresh-handler baseline, second display identical, raw bytes untouched, and a value copy must be unaffected by what another consumer does with its own copy. Concurrency: 2-3 threads decode and display on separate handlers and on value copies of one message under the controlled scheduler with scheduling points at every function and loop entry of the rtcm packages; every schedule with <=1/2 preemptions must reproduce the sequential results.",
+         "Yield-point granularity; memory-model races only via the auxiliary -race pass.", "5/C15"),
+ "C17": ("enum", "explicit enumeration of (start time, first observation, history) triples from the real handler state against the reference GNSS time model",
+         "For each constellation, start times at the week start, +1 ms, +1 s, Wednesday noon and the week end -1 s/-1 ms in 4 time zones, first observations before, at and after T within the same constellation week, followed by every history of depth <=2/3 with the C06 step menu; every reported time and week start must equal the reference model.",
+         "Same reference model as C06; depth-bounded.", "5/C17"),
 }
 
 def main():
